@@ -414,6 +414,39 @@ def n10_map_collect(body, log):
         log.append("N10")
 
 
+def n12_any_all(body, log):
+    """N12: `ITER.any(|P| B)` ==> `{ let mut __r = false; for P in ITER { if !__r { if B { __r = true; } } } __r }`
+            `ITER.all(|P| B)` ==> `{ let mut __r = true;  for P in ITER { if __r { if !(B) { __r = false; } } } __r }`
+    (definition of Iterator::any/all: the closure is not evaluated after the result is decided)."""
+    while True:
+        m = mask(body)
+        hit = re.search(r"\.\s*(any|all)\s*\(\s*\|", m)
+        if not hit:
+            return body
+        dot = hit.start()
+        rs = _recv_start(m, dot)
+        it = re.sub(r"\s+", "", body[rs:dot]) if "\n" in body[rs:dot] else body[rs:dot].strip()
+        which = hit.group(1)
+        open_p = m.index("(", dot)
+        close_p = match_close(m, open_p)
+        ci = skip_ws(m, open_p + 1)
+        ps, pe, bs, be = _closure_at(m, ci)
+        if skip_ws(m, be) != close_p:
+            raise Unsupported("N12: unexpected tokens after closure")
+        param = body[ps:pe].strip()
+        cbody = body[bs:be]
+        _forbid_control(m[bs:be], "N12") if not cbody.lstrip().startswith("{") else None
+        if cbody.lstrip().startswith("{") and re.search(r"(?<![A-Za-z0-9_])return(?![A-Za-z0-9_])", m[bs:be]):
+            # closure block with early returns: turn it into a labelled-free form is out of scope
+            raise Unsupported("N12: closure body with `return`")
+        if which == "any":
+            new = "{ let mut __r = false; for %s in %s { if !__r { if %s { __r = true; } } } __r }" % (param, it, cbody)
+        else:
+            new = "{ let mut __r = true; for %s in %s { if __r { if !(%s) { __r = false; } } } __r }" % (param, it, cbody)
+        body = body[:rs] + new + body[close_p + 1:]
+        log.append("N12")
+
+
 RULES = {
     "N1": n1_map_with_mut,
     "N2": n2_for_each,
@@ -423,10 +456,11 @@ RULES = {
     "N6": n6_unwrap_or_else,
     "N8": n8_guard_arms,
     "N10": n10_map_collect,
+    "N12": n12_any_all,
 }
 
 # order matters: N8 restructures arms first, N4 then wraps guarded blocks, then closures are inlined
-DEFAULT_ORDER = ["N8", "N4", "N1", "N2", "N10", "N3", "N5"]
+DEFAULT_ORDER = ["N8", "N4", "N1", "N2", "N10", "N12", "N3", "N5"]
 
 
 def normalise(body, rules=None):
